@@ -26,6 +26,8 @@ func (u *Unit) modSort(name string, t types.Type) string {
 	case strings.HasPrefix(name, "MP:"):
 		mt := t.Underlying().(*types.Map)
 		return fmt.Sprintf("(Array Int (Array %s Bool))", s.sortOf(mt.Key()))
+	case strings.HasPrefix(name, "SB:"):
+		return "String"
 	case strings.HasPrefix(name, "MV:"):
 		mt := t.Underlying().(*types.Map)
 		return fmt.Sprintf("(Array Int (Array %s %s))", s.sortOf(mt.Key()), s.sortOf(mt.Elem()))
@@ -203,6 +205,11 @@ func (fr *frame) callStatic(fn *ssa.Function, args []*Val, bindings []*Val, st *
 	}
 	// spec builtins and ghost functions (bodyless declarations in the spec overlay)
 	if isRepoFunc(fn) && len(fn.Blocks) == 0 && fn.Synthetic == "" {
+		if (fn.Name() == "old" || fn.Name() == "oldS") && c != nil && len(c.Args) == 1 && fr.pure && fr.preState != nil {
+			// old(e): e as it was on entry of the function under contract - its defining instructions are executed
+			// again over the entry state
+			return fr.reevalIn(c.Args[0], fr.preState, reach)
+		}
 		return fr.callSpecBuiltin(fn, args, resT, st, reach)
 	}
 	// receiver nil-check for pointer-receiver methods on repo types is a precondition of every method (implicit)
@@ -221,6 +228,16 @@ func (fr *frame) callStatic(fn *ssa.Function, args []*Val, bindings []*Val, st *
 	key := externKey(fn)
 	if v, ok := fr.lockOp(key, args, st, reach, pos); ok {
 		return v
+	}
+	if key == "fmt.Sprintf" {
+		if v := fr.nativeSprintf(c, st); v != nil {
+			return v
+		}
+	}
+	if c != nil && !fr.pure {
+		if name := fr.builderCallName(c); name != "" {
+			return fr.builderCall(name, fn.Name(), args, st)
+		}
 	}
 	// a few string functions have native SMT meanings
 	switch key {
@@ -277,6 +294,9 @@ func (fr *frame) inline(fn *ssa.Function, args []*Val, bindings []*Val, resT typ
 	nf := u.newFrame(fn, fr.depth+1, fr.pure, prefix)
 	nf.binders = fr.binders
 	nf.lets = fr.lets
+	if fr.pure {
+		nf.preState = fr.preState
+	}
 	if !fr.pure {
 		nf.parent, nf.via = fr, fr.cur
 	}
@@ -679,8 +699,66 @@ func (fr *frame) evalSpec(c *Clause, args []*Val, st *State, pre *State) string 
 	return res[0].t
 }
 
+// reevalIn computes the value of v again with every load taken from state st (used for old()).
+func (fr *frame) reevalIn(v ssa.Value, st *State, reach string) *Val {
+	var order []ssa.Instruction
+	seen := map[ssa.Value]bool{}
+	var visit func(v ssa.Value)
+	visit = func(v ssa.Value) {
+		in, ok := v.(ssa.Instruction)
+		if !ok || seen[v] || in.Parent() != fr.fn {
+			return
+		}
+		seen[v] = true
+		if _, isPhi := v.(*ssa.Phi); isPhi {
+			return
+		}
+		for _, op := range in.Operands(nil) {
+			if *op != nil {
+				visit(*op)
+			}
+		}
+		order = append(order, in)
+	}
+	visit(v)
+	saved := map[ssa.Value]*Val{}
+	for _, in := range order {
+		if val, ok := in.(ssa.Value); ok {
+			saved[val] = fr.vals[val]
+		}
+	}
+	for _, in := range order {
+		fr.execInstr(in, st, reach, in.Block())
+	}
+	out := &Val{t: fr.valTerm(fr.valOf(v), st)}
+	for val, old := range saved {
+		if old == nil {
+			delete(fr.vals, val)
+		} else {
+			fr.vals[val] = old
+		}
+	}
+	return out
+}
+
 func (fr *frame) callSpecBuiltin(fn *ssa.Function, args []*Val, resT types.Type, st *State, reach string) *Val {
 	u := fr.u
+	if strings.HasPrefix(fn.Name(), "allocatedHere") && len(args) == 1 {
+		// allocatedHere*(x): the object a pointer refers to / the backing array of a slice was allocated by the function
+		// under verification (after its entry): it cannot be something an earlier invocation, a cache, a pool or a package
+		// variable still holds. (Declared per argument type as a bodyless `ghost func allocatedHereT(x T) bool`.)
+		a := args[0]
+		if a.t == "" && a.lv != nil && a.lv.kind == lvCell {
+			return &Val{t: "true"}
+		}
+		if a.t == "" || u.alloc0 == "" {
+			return &Val{t: "false"}
+		}
+		if _, isSlice := fn.Signature.Params().At(0).Type().Underlying().(*types.Slice); isSlice {
+			return &Val{t: fmt.Sprintf("(>= (s-arr %s) %s)", a.t, u.alloc0)}
+		}
+		return &Val{t: fmt.Sprintf("(>= %s %s)", a.t, u.alloc0)}
+	}
 	switch fn.Name() {
 	case "forall", "exists":
 		lo, hi := args[0].t, args[1].t
@@ -718,7 +796,7 @@ func (fr *frame) callSpecBuiltin(fn *ssa.Function, args []*Val, resT types.Type,
 		return args[0]
 	case "nsToTime":
 		return args[0]
-	case "old":
+	case "old", "oldS":
 		return args[0]
 	}
 	// ghost predicate / function: uninterpreted
